@@ -143,6 +143,26 @@ func recordTime(args []string) int {
 		evs = append(evs, ev)
 		times = append(times, t)
 	}
+	// every day on which the process-local zone changes its offset (2018-2026), and its neighbours
+	for y := 2018; y <= 2026; y++ {
+		prev := time.Date(y, 1, 1, 12, 0, 0, 0, time.Local)
+		_, poff := prev.Zone()
+		for d := 2; d <= 366; d++ {
+			cur := time.Date(y, 1, d, 12, 0, 0, 0, time.Local)
+			_, off := cur.Zone()
+			if off != poff {
+				for _, dd := range []int{d - 1, d, d + 1} {
+					ev, t, err := dateEv(int64(y), 1, int64(dd))
+					if err != nil {
+						return fail(err)
+					}
+					evs = append(evs, ev)
+					times = append(times, t)
+				}
+			}
+			poff = off
+		}
+	}
 	// times of day (noon-ish, to stay clear of DST gaps for addDate; arbitrary for fields)
 	for i := 0; i < *n; i++ {
 		t := times[rng.Intn(len(times))].Add(time.Duration(rng.Int63n(86400000)) * time.Millisecond)
